@@ -15,9 +15,13 @@ def suite(wt):
     failed = sorted(l.split(' - ')[0] for l in lines if l.startswith('FAILED'))
     return lines[-1] if lines else '', failed
 
-def main(src):
+def main(src, rename=None):
     meta = json.load(open(os.path.join(src, 'meta.json')))
     pid, var = meta['property'], meta['variant']
+    if rename:
+        var = rename
+        meta['variant'] = rename
+        meta['round'] = 2
     wt = tempfile.mkdtemp(prefix='wt-confirm-', dir='/tmp')
     os.rmdir(wt)
     assert sh(f'git -C /repo worktree add --detach {wt} HEAD').returncode == 0
@@ -57,4 +61,4 @@ def main(src):
         sh(f'git -C /repo worktree remove --force {wt}')
 
 if __name__ == '__main__':
-    sys.exit(main(sys.argv[1].rstrip('/')))
+    sys.exit(main(sys.argv[1].rstrip('/'), sys.argv[2] if len(sys.argv) > 2 else None))
